@@ -150,6 +150,15 @@ pub fn boxed_templates() -> Vec<String> {
         "fn dsp(){ let t = ((Som(1.0), 2.0), 3.0)\n t.1 }",
         "fn dsp(){ let t = (Non, Nil, 1.0)\n t.2 }",
         "fn dsp(){ let o = if (now > 2.0) Som(now) else Non\n get(o) }",
+        // several closures made while a boxed value is alive (the heap table and the closure table
+        // are separate slot maps whose keys coincide): before / after / around the box, capturing
+        // each other, in a helper that is called while the caller's box and closures are alive
+        "fn dsp(){ let l = Cons(1.0, Nil)\n let k = 2.0\n let h = |x| x + k\n let f = |x| h(x) * 2.0\n f(1.0) }",
+        "fn dsp(){ let k = 2.0\n let h = |x| x + k\n let l = Cons(now, Nil)\n let f = |x| h(x) * 2.0\n f(1.0) + h(0.0) }",
+        "fn dsp(){ let k = 2.0\n let h = |x| x + k\n let f = |x| h(x) * 2.0\n let o = Som(now)\n let l = Cons(1.0, Nil)\n f(1.0) + h(0.0) + get(o) }",
+        "fn work(a){ let g = |x| x + a\n let g2 = |x| g(x) + a\n g2(1.0) }\nfn dsp(){ let l = Cons(1.0, Nil)\n let k = 2.0\n let h = |x| x + k\n let f = |x| h(x) * 2.0\n let r = work(3.0)\n f(1.0) + r + h(0.0) }",
+        "fn work(a){ let o = Som(a)\n let g = |x| x + a\n let g2 = |x| g(x) + a\n g2(1.0) + get(o) }\nfn dsp(){ let h = |x| x + 1.0\n let f = |x| h(x) * 2.0\n f(work(now)) + work(2.0) }",
+        "fn dsp(){ let a = Som(1.0)\n let b = Som(2.0)\n let c = Cons(3.0, Nil)\n let p = |x| x + 1.0\n let q = |x| p(x) + 1.0\n let r = |x| q(x) + p(x)\n r(now) + get(a) + get(b) }",
     ];
     bodies.iter().map(|b| format!("{head}{b}\n")).collect()
 }
